@@ -114,7 +114,7 @@ def main():
     for pid, c in CLAIMED.items():
         engines.setdefault(c["engine"], []).append(pid)
     man = dict(version=1,
-      setup_cmd="./check build asan-ndebug asan-debug asan-debug-nostats hookall-ndebug",
+      setup_cmd="./check build asan-ndebug asan-debug asan-debug-nostats hookall-ndebug hookall-debug",
       hooks=dict(guard="UNODB_DETAIL_VERIF_HOOKS", enable="./check compiles /repo's headers and qsbr.cpp/qsbr_ptr.cpp/art_internal.cpp directly with -DUNODB_DETAIL_VERIF_HOOKS (no CMake); "
                  "the harness defines unodb_verif_point/unodb_verif_buggify/unodb_verif_probe", baseline_off_cmd="./check baseline-off", source_commits=HOOK_COMMITS, add_only=True),
       engines=[dict(name=e, path="/verif/sim", serves_properties=sorted(p), kind_free_text="deterministic simulation engine inside the sim binary (./check builds it per configuration)") for e, p in sorted(engines.items())],
